@@ -522,6 +522,16 @@ fn perm_check<F: PrimeField64>(
                 }
             }
         }
+        if r + 1 == h && sh.compact {
+            // the one constraint that also holds on the wrap-around window (last row -> row 0):
+            // row 0 always starts a chain and has no predecessor, so the capacity inputs of a
+            // fresh sponge in row 0 are forced to (tag = 0, 0, ...) through this window
+            let o = &ops[0];
+            let inn = &main[0][..w];
+            if o.new_start && !o.merkle && inn[re * d..].iter().any(|x| *x != F::ZERO) {
+                bad.push("fresh sponge capacity not zero (wrap-around window)");
+            }
+        }
         if !bad.is_empty() {
             expect.insert(r);
             why.insert(r, bad);
@@ -701,8 +711,8 @@ pub fn enumeration(seed: u64) -> Vec<PermCase> {
 
 pub fn run(ctx: &Ctx) {
     ctx.assume(
-        "permutation tables: the last->first row pair is not constrained (every chaining constraint is gated by \
-         is_transition); the model does the same",
+        "permutation tables: on the last->first row pair only the chain-start capacity rule of the compact D=1 \
+         layout applies (row 0 has no predecessor); every other chaining constraint is gated by is_transition",
     );
     ctx.assume(
         "compact D=1 layout: capacity limbs are never witness-fed and the capacity length tag column is 0 \
